@@ -92,7 +92,14 @@ ASSUMPTIONS = [
     '(state, call) pairs that satisfy the theorems\' hypotheses)',
     'members of bit-fields are addressed by position in the model; a renamed / reordered member with equal widths is '
     'visible to the correspondence run only (not to the theorems)',
-    'operations of other properties (SDR, SEL, FRU, HPM upgrade, DCMI, raw) are not exercised here (evidence: not_exercised_ops)',
+    'operations of other properties (SDR, SEL, FRU, HPM upgrade, raw) are not exercised here (evidence: not_exercised_ops)',
+    'DCMI (get_dcmi_capabilities, get_power_reading, get_dcmi_sensor_record_ids) is exercised against a reference BMC written '
+    'from DCMI 1.5 chapter 6 (every parameter selector / mode / attributes byte answers; Entity Instance Start 00h and 01h '
+    'both name the first instance).  get_dcmi_sensor_record_ids is a sequence of three exchanges, modelled outside Call '
+    '(Model/Api/Dcmi.lean) and proved equal to the reference only for BMCs with at most 8 temperature sensors per entity '
+    '(read_get_dcmi_sensor_record_ids_partial): the library never asks for a second page.  The generated BMC states keep '
+    'to 0..8 sensors per entity (one response), so that known gap (OBSERVATION, dcmi_sensor_ids_not_paged_counterexample, '
+    'confirmed on the real code) is not re-reported on every run (evidence: partially_proved_ops)',
     'documented denotation choices where the audit of the unchanged code (findings/c07) saw an ambiguity or a layout '
     'the repository\'s own tests pin - NOT reported as violations: (finding_1) set/get_event_receiver take and return the '
     '7-bit IPMB address of the receiver (slave address / 2; tests/msgs/test_event.py pins the 7-bit field), so FFh '
@@ -328,6 +335,22 @@ def c_props(props):
         if k == 'ComponentPropertyDescriptionString':
             descr = p.description
     return 'props=%s descr=%s' % (','.join('%d' % k for k in kinds) or '-', c_text(descr))
+
+
+def c_dcmi_caps(r):
+    c = r.specification_conformence
+    return 'major=%d minor=%d rev=%d data=%s' % (c.major, c.minor, r.parameter_revision, _hex(r.parameter_data))
+
+
+def c_power_reading(r):
+    return 'cur=%d min=%d max=%d avg=%d ts=%d period=%d state=%d' % (
+        r.current_power, r.minimum_power, r.maximum_power, r.average_power, r.timestamp, r.period, r.reading_state)
+
+
+def c_ids(l):
+    if not isinstance(l, list) or not all(isinstance(x, int) and not isinstance(x, bool) for x in l):
+        return 'unexpected:%r' % (l,)
+    return ','.join('%d' % x for x in l) or '-'
 
 
 def c_opt(r):
@@ -832,6 +855,21 @@ for _n in ('get_component_property', 'get_component_properties', 'find_component
     # one defect (the decoder of the description string) seen through three methods
     OPS[_n].sigfield = lambda tok, exp, obs: '@get_component_property:description'
 
+# --- DCMI 1.5: capabilities (selectors 1..5 defined, every byte value asked), power reading (mode 1 / 2 defined, every
+# mode and attributes byte asked; `attributes` also left at its default), the temperature-sensor walk
+g_dcmi_sel = _pool([1, 2, 3, 4, 5, 0, 6, 0x80, 0xff], 256)
+g_dcmi_mode = _pool([1, 2, 0, 0xff], 256)
+g_dcmi_attr = _pool([0, 1, 2, 0x7f, 0xff], 256)
+_op('get_dcmi_capabilities', 'dcmi', True, lambda r: _T(g_dcmi_sel(r)),
+    lambda ip, t: ip.get_dcmi_capabilities(int(t[0])), c_dcmi_caps, ['mut:dcmi'])
+_op('get_power_reading', 'dcmi', True, lambda r: _T(g_dcmi_mode(r), 'n' if r.random() < 0.25 else g_dcmi_attr(r)),
+    lambda ip, t: ip.get_power_reading(int(t[0])) if t[1] == 'n' else ip.get_power_reading(int(t[0]), int(t[1])),
+    c_power_reading, ['mut:dcmi'])
+OPS['get_power_reading'].denote = lambda tok: [tok[0], '0' if tok[1] == 'n' else tok[1]]
+_op('get_dcmi_sensor_record_ids', 'dcmi', True, lambda r: [], lambda ip, t: ip.get_dcmi_sensor_record_ids(), c_ids, ['mut:dcmi'])
+# operations whose model is a sequence of exchanges outside Spec.Bmc.Call, proved under an extra hypothesis (`_partial`)
+PARTIAL_OPS = ['get_dcmi_sensor_record_ids']
+
 FAMILIES = sorted(set(o.fam for o in OPS.values()))
 # send_channel_power: current_limit is a float in ampere, the wire carries tenths: only values x = k/10.0
 # with int(x*10) == k are generated (float rounding is not this property's subject); the token is k.
@@ -1013,6 +1051,11 @@ def run_history(drv, hist, modelled, ctx=None, verbose=False):
                 ctx.count('link_type_read:' + ('OEM (F0h..FFh)' if int(exp_res.split(' type=')[1].split(' ')[0]) >= 0xf0 else 'PICMG 3.x / other'))
             if st['op'] == 'set_fan_level':
                 ctx.count('fan_tray:' + drv.ask('fanrev %d %s' % (bi, tok[0])))
+            if st['op'] == 'get_dcmi_sensor_record_ids' and not exp_res.startswith(('cc:', 'py:')):
+                n = 0 if exp_res == '-' else len(exp_res.split(','))
+                ctx.count('dcmi_record_ids_read:%s' % ('0' if n == 0 else '1-8' if n <= 8 else '9-16' if n <= 16 else '17-24'))
+            if st['op'] == 'get_power_reading':
+                ctx.count('power_reading_attributes:' + ('default' if tok[1] == 'n' else 'given'))
             if st['op'] == 'query_rollback_status':
                 ctx.count('rollback_read:mask %s, estimate %s' % (
                     'zero' if exp_res.startswith('status=0 ') else 'non-zero',
@@ -1047,7 +1090,8 @@ def run_history(drv, hist, modelled, ctx=None, verbose=False):
             m_ok = (m_res == obs or m_res == tag or (m_res.startswith('py:') and tag.startswith('py:'))) and m_dig == now[bi]
             # the request(s) the real code put on the wire against the model's single request
             sent = ['%d %d %d %s' % (e[0], e[1], e[2], e[3] or '-') for e in ifaces[k].log[log_from:]]
-            want = [model_req] if (model_req and model_req[0].isdigit()) else []
+            # (an operation modelled as a sequence of exchanges: its requests separated by ' ; ')
+            want = model_req.split(' ; ') if (model_req and model_req[0].isdigit()) else []
             r_ok = sent == want
             if ctx is not None:
                 ctx.count('request_bytes_compared')
@@ -1067,7 +1111,7 @@ def run_history(drv, hist, modelled, ctx=None, verbose=False):
 # ------------------------------------------------------------------------------------------
 
 MUT_FAMS = dict((k, k) for k in ('device', 'guid', 'chassis', 'boot', 'lan', 'users', 'sensors', 'unavail', 'events', 'picmg', 'power', 'fans', 'leds',
-                                 'ports', 'hpm'))
+                                 'ports', 'hpm', 'dcmi'))
 
 
 def gen_history(rng, tier, focus=None):
@@ -1295,6 +1339,16 @@ def directed_histories(rng):
         H([C('query_rollback_status'), {'mut': 0, 'seed': rng.randrange(1 << 30), 'fam': 'hpm'}, C('query_rollback_status'),
            {'mut': 0, 'seed': rng.randrange(1 << 30), 'fam': 'hpm'}, C('query_rollback_status', conn=1)],
           conns=[{'bmc': 0, 'ctor': 'create_connection'}, {'bmc': 0, 'ctor': 'Ipmi'}])
+    # DCMI: every defined capabilities selector and both power-reading modes against a fresh and a changed BMC, the
+    # sensor walk before and after the sensor population changes, through a second connection as well
+    for _ in range(3):
+        H([C('get_dcmi_capabilities', sel) for sel in (1, 2, 3, 4, 5)]
+          + [C('get_power_reading', 1, 'n'), C('get_power_reading', 2, 0x7f), C('get_dcmi_sensor_record_ids'),
+             {'mut': 0, 'seed': rng.randrange(1 << 30), 'fam': 'dcmi'}]
+          + [C('get_dcmi_capabilities', sel, conn=1) for sel in (1, 5, 0xff)]
+          + [C('get_power_reading', 1, 0), C('get_power_reading', 2, 'n', conn=1), C('get_dcmi_sensor_record_ids', conn=1),
+             {'mut': 0, 'seed': rng.randrange(1 << 30), 'fam': 'dcmi'}, C('get_dcmi_sensor_record_ids')],
+          conns=[{'bmc': 0, 'ctor': 'create_connection'}, {'bmc': 0, 'ctor': 'Ipmi'}])
     return out
 
 
@@ -1499,9 +1553,11 @@ def run(ctx):
     # case of the theorems - provided they were built and audited in this run
     generic = ['PyIpmi.Props.C07.model_refines_oracle', 'PyIpmi.Props.C07.history_refines',
                'PyIpmi.Props.C07.read_after_history', 'PyIpmi.Props.C07.wf_invariant']
-    proved = sorted(modelled) if all(g in ctx.theorems for g in generic) and not ctx.broken else []
+    proved = sorted(modelled - set(PARTIAL_OPS)) if all(g in ctx.theorems for g in generic) and not ctx.broken else []
     ctx.extra['proved_ops'] = proved
-    ctx.extra['modelled_not_proved_ops'] = sorted(set(modelled) - set(proved))
+    ctx.extra['partially_proved_ops'] = sorted(n for n in PARTIAL_OPS if n in modelled
+                                               and 'PyIpmi.Props.C07.read_%s_partial' % n in ctx.theorems and not ctx.broken)
+    ctx.extra['modelled_not_proved_ops'] = sorted(set(modelled) - set(proved) - set(ctx.extra['partially_proved_ops']))
     ctx.extra['exercised_only_ops'] = sorted((set(OPS) | {'open'}) - set(modelled))
     ctx.extra['exercised_ops'] = sorted(OPS) + ['open']
     allops = public_ops()
